@@ -243,7 +243,7 @@ def canaries():
     from harness.common import mutate
     return [
         ('clients-not-dropped-on-disconnect', 'one-mutation', lambda: mutate(WH.HTTP, '_on_disconnect', 'del self._clients[sock]', 'pass'), ['state-retained-after-disconnect']),
-        ('error-does-not-close', 'one-mutation', lambda: mutate(WH.HTTP, '_on_response', 'if res.close:\n                self.fire(close(sock))', 'if res.close and res.status < 400:\n                self.fire(close(sock))'), ['announced-close-not-closed']),
+        ('error-does-not-close', 'one-mutation', lambda: mutate(WH.HTTP, '_on_response', 'if res.close:\n                self._closing.add(sock)\n                self.fire(close(sock))', 'if res.close and res.status < 400:\n                self._closing.add(sock)\n                self.fire(close(sock))'), ['announced-close-not-closed']),
         ('request-after-505', 'one-mutation', lambda: mutate(WH.HTTP, '_on_read', 'return self.fire(httperror(req, res, 505))', 'self.fire(httperror(req, res, 505))'), None),
         ('bad-header-ignored-error', 'one-mutation', lambda: mutate(WH.HTTP, '_on_read', 'if parser.errno is not None:', 'if parser.errno == BAD_FIRST_LINE:'), None),
     ]
